@@ -94,6 +94,56 @@ def run(cx):
           "a new derived node's time_updated must be max_time_updated of its dependencies (not the current epoch)",
           g.loc(ins[0].line))
 
+    # ---- R02.deps-refreshed ---------------------------------------------------
+    inv = [t for t in f.calls() if term_calls(t, r"invoke_with_dependency_tracking$")]
+    if len(inv) != 1:
+        raise AnchorError("update_derived_node: expected one invoke_with_dependency_tracking call")
+    sw = switch_on_call_result(f, inv[0])
+    if sw is None or "Some" not in sw["arms"]:
+        raise AnchorError("update_derived_node: result of the re-execution is not matched")
+    dep_st = stores_to_field(f, "dependency_index")
+    pth = path_without(f, sw["arms"]["Some"], f.return_blocks(), [x.bb for x in dep_st])
+    fed = all(local_flows_from(f, q.local, lambda d: not hasattr(d, "rv") and term_calls(d, r"insert_dependencies$"))
+              is not None for x in dep_st for q in x.reads()) and bool(dep_st)
+    cx.ob("R02.deps-refreshed", f.id + "|new-dependency-list-stored", pth is None and fed,
+          "after a re-execution the freshly tracked dependency list (with its current verification epochs) is not "
+          "stored on every path: the node keeps stale dependency records and is re-executed (or wrongly reused) on "
+          "later verifications", f.loc(), detail=fmt_path(f, pth) if pth else None)
+
+    # ---- R02.time-updated-writers (who may write a revision's time_updated) -------------------
+    n_sites = 0
+    for h in pico:
+        # field stores
+        for x in stores_to_field(h, "time_updated"):
+            base_ty = h.local_ty(x.dst.local) if hasattr(x, "dst") and x.dst is not None else ""
+            if "DerivedNodeRevision" not in base_ty and "RefMut" not in base_ty and "revision" not in (h.local_name(x.dst.local) or "") and "rev" != (h.local_name(x.dst.local) or ""):
+                continue
+            n_sites += 1
+            cx.ob("R02.time-updated-writers", h.id + "|field-store", h.id == f.id,
+                  "time_updated of an existing derived-node revision is overwritten outside update_derived_node's "
+                  "value-changed branch: dependents recorded against the old epoch re-execute although nothing they "
+                  "read changed", h.loc(x.line))
+        # whole-revision constructions
+        for a in aggregates(h, r"^pico::derived_node::DerivedNodeRevision$"):
+            n_sites += 1
+            role = None
+            if h.name == "insert_derived_node_revision":
+                role = "creation helper"
+            elif "garbage_collection" in h.file:
+                role = "gc copy"
+            else:
+                for sw_ in discr_switches(h):
+                    if "Vacant" in sw_["arms"] and "Occupied" in sw_["arms"]:
+                        vac = reachable_from(h, sw_["arms"]["Vacant"]) - reachable_from(h, sw_["arms"]["Occupied"])
+                        if a.bb in vac:
+                            role = "vacant-entry creation"
+            cx.ob("R02.time-updated-writers", "%s|revision-built|%s" % (h.id, role or "existing-entry"),
+                  role is not None,
+                  "a DerivedNodeRevision (with a fresh time_updated) is constructed for an id that already has a "
+                  "revision: its time_updated moves although its value did not change, so every dependent "
+                  "re-executes", h.loc(a.line))
+    cx.floor("R02.time-updated-writers sites writing a revision's time_updated", n_sites, 5)
+
     # ---- R02.short-circuit -------------------------------------------------
     e = fb.one(r"pico::execute_memoized_function::execute_memoized_function$")
     body_blocks = set(blocks_calling(e, RUN_BODY))
